@@ -614,6 +614,67 @@ fn server_shutdown(seed: u64) {
     println!("{{\"found\": false, \"evaluations\": {}, \"searched\": \"{} connections with 200 pipelined SETs each, shutdown signal at a pseudo-random moment; received bytes must be whole replies, acknowledged SETs must be stored\"}}", rounds, rounds);
 }
 // ---------------------------------------------------------------------------------------------------
+// C06, client side (bounded): the crate's own Client against (a) the real Server on the real engine, compared with a map model,
+// and (b) a scripted peer that answers with replies the real server never sends (how the client reads replies)
+fn client_search() {
+    use bitcask::storage::bitcask::{Config as SConf, SyncStrategy};
+    use std::collections::BTreeMap;
+    use tokio::io::{AsyncReadExt, AsyncWriteExt};
+    let rt = tokio::runtime::Builder::new_multi_thread().worker_threads(2).enable_all().build().unwrap();
+    let dir = tempfile::tempdir().unwrap();
+    let mut c = SConf::default();
+    c.path(dir.path()).concurrency(2).max_file_size(200).sync(SyncStrategy::None).merge_check_interval_ms(1_000_000_000).merge_check_jitter(0.0);
+    let kv = c.open().unwrap();
+    let handle = kv.get_handle();
+    let port = { let l = std::net::TcpListener::bind("127.0.0.1:0").unwrap(); l.local_addr().unwrap().port() };
+    let (stop_tx, stop_rx) = tokio::sync::oneshot::channel::<()>();
+    let mut nc = bitcask::net::Config::default();
+    nc.host = "127.0.0.1".parse().unwrap(); nc.port = port;
+    let found: Result<Option<(String, String, String)>, String> = rt.block_on(async {
+        let server = nc.async_server(handle, async { let _ = stop_rx.await; }).await.map_err(|e| format!("server start: {}", e))?;
+        let srv = tokio::spawn(server.run());
+        let mut cl = bitcask::net::Client::connect(("127.0.0.1", port)).await.map_err(|e| format!("connect: {}", e))?;
+        let mut model: BTreeMap<String, Vec<u8>> = BTreeMap::new();
+        let mut hist: Vec<String> = Vec::new();
+        let values: Vec<Vec<u8>> = vec![b"v".to_vec(), b"".to_vec(), b"\r\n".to_vec(), vec![0xff, 0x00, 0xfe], b"$-1\r\n".to_vec(), vec![b'x'; 3000], b"OK".to_vec()];
+        let keys = ["k0", "k1", "k2", "\u{e9}t\u{e9}"];
+        let mut x: u64 = 88172645463325252;
+        let mut next = move |n: u64| { x ^= x << 13; x ^= x >> 7; x ^= x << 17; x % n };
+        for _ in 0..200 {
+            let k = keys[next(4) as usize].to_string();
+            match next(10) {
+                0..=3 => { let v = values[next(values.len() as u64) as usize].clone(); hist.push(format!("set {} <{} bytes>", k, v.len()));
+                    if let Err(e) = cl.set(k.clone(), bytes::Bytes::from(v.clone())).await { return Ok(Some((hist.join("; "), format!("Client::set failed: {}", e), "Ok(())".into()))); } model.insert(k, v); }
+                4..=6 => { hist.push(format!("get {}", k)); let got = cl.get(k.clone()).await.map_err(|e| e.to_string()).map(|o| o.map(|b| b.to_vec())); let exp = Ok(model.get(&k).cloned());
+                    if got != exp { return Ok(Some((hist.join("; "), format!("Client::get returned {:?}", got.map(|o| o.map(|v| v.len()))), format!("{:?} (lengths)", exp.map(|o: Option<Vec<u8>>| o.map(|v| v.len()))))));  } }
+                _ => { let m = 1 + next(3) as usize; let ks: Vec<String> = (0..m).map(|_| keys[next(4) as usize].to_string()).collect(); hist.push(format!("del {}", ks.join(" ")));
+                    let mut cnt = 0i64; for kk in ks.iter() { if model.remove(kk).is_some() { cnt += 1; } }
+                    let got = cl.del(ks).await.map_err(|e| e.to_string()); if got != Ok(cnt) { return Ok(Some((hist.join("; "), format!("Client::del returned {:?}", got), format!("Ok({})", cnt)))); } }
+            }
+        }
+        drop(cl);
+        let _ = stop_tx.send(());
+        let _ = tokio::time::timeout(std::time::Duration::from_secs(10), srv).await;
+        // (b) a scripted peer: reads whatever arrives and answers with a fixed reply
+        for (reply, what) in [(&b"+QUEUED\r\n"[..], "set"), (&b":1\r\n"[..], "set"), (&b"+OK\r\n"[..], "get"), (&b":5\r\n"[..], "get"), (&b"$2\r\nOK\r\n"[..], "del"), (&b"-ERR boom\r\n"[..], "get"), (&b"-ERR boom\r\n"[..], "set"), (&b"-ERR boom\r\n"[..], "del")] {
+            let l = tokio::net::TcpListener::bind("127.0.0.1:0").await.map_err(|e| e.to_string())?;
+            let p = l.local_addr().unwrap().port();
+            let rep = reply.to_vec();
+            let peer = tokio::spawn(async move { if let Ok((mut s, _)) = l.accept().await { let mut b = [0u8; 256]; let _ = s.read(&mut b).await; let _ = s.write_all(&rep).await; let _ = s.flush().await; tokio::time::sleep(std::time::Duration::from_millis(200)).await; } });
+            let mut cl = bitcask::net::Client::connect(("127.0.0.1", p)).await.map_err(|e| format!("connect: {}", e))?;
+            let ok = match what { "set" => cl.set("k".into(), bytes::Bytes::from_static(b"v")).await.is_ok(), "get" => cl.get("k".into()).await.is_ok(), _ => cl.del(vec!["k".into()]).await.is_ok() };
+            let _ = peer.await;
+            if ok { return Ok(Some((format!("a peer answers a {} request with {:?}", what, String::from_utf8_lossy(reply)), format!("Client::{} returned Ok", what), "an error: not a reply this command can get".into()))); }
+        }
+        Ok(None)
+    });
+    match found {
+        Err(e) => { eprintln!("client-search: {}", e); std::process::exit(3); }
+        Ok(Some((h, o, e))) => println!("{{\"found\": true, \"kind\": \"client\", \"props\": \"C06\", \"history\": {}, \"observed\": {}, \"expected\": {}}}", js(&h), js(&o), js(&e)),
+        Ok(None) => println!("{{\"found\": false, \"evaluations\": 208, \"searched\": \"200 set/get/del calls of the crate's Client against the real Server and engine (binary values, multi-key DEL) compared with a map model; 8 scripted replies that a command cannot get (wrong type, error) must be refused\"}}"),
+    }
+}
+// ---------------------------------------------------------------------------------------------------
 // C15 (bounded): the real Server with max_connections = 2.  Connections come and go in every way a client can end one; afterwards
 // exactly two connections are served concurrently and a third is served only once one of them has closed.
 fn server_slots() {
@@ -1152,6 +1213,7 @@ fn main() {
         }
         Some("conn-search") => conn_search(),
         Some("server-hostile") => server_hostile(),
+        Some("client-search") => client_search(),
         Some("server-slots") => server_slots(),
         Some("store-background") => store::background(),
         Some("server-shutdown") => server_shutdown(a.get(2).map(|s| s.parse().unwrap()).unwrap_or(0)),
